@@ -72,6 +72,12 @@ Print Assumptions C06_pcsd_flatten.
 Theorem C06_pcsd_diag_is_periodogram : forall sd nrm N n Fs X i f,
   pcsd sd nrm N n Fs X i i f =c= ofQ (periodogram sd nrm N n Fs (X i) f).
 Proof. exact pcsd_diag_is_periodogram. Qed.
+(* ... also for a truncating transform, NFFT = N < n = number of samples (X is then the FFT of the
+   first N samples): both functions divide by Fs * n, whatever N is *)
+Theorem C06_pcsd_diag_is_periodogram_truncating : forall sd nrm N n Fs X i f, (N < n)%nat ->
+  pcsd sd nrm N n Fs X i i f =c= ofQ (periodogram sd nrm N n Fs (X i) f) /\
+  nrmf nrm Fs n = (if nrm then / (Fs * inj n) else 1).
+Proof. exact pcsd_diag_is_periodogram_truncating. Qed.
 Theorem C06_mtcsd_diag_is_psd : forall sd N K Fs w d Y i f,
   d i f * d i f == auto_denom K (w i) f ->
   mtcsd sd N K Fs w d Y i i f =c= ofQ (mt_psd sd N K Fs (w i) (Y i) f).
